@@ -1138,6 +1138,71 @@ def agree_keyword_named_states(ni: int, di: int, inner: bool) -> bool:
 
 
 
+# numeric fields whose legal values are a sub-range of the numbers: what the validator accepts must run to a terminal
+# status (never stall with nothing left to deliver, never escape notify), and must not fail for being ill-typed
+NUM_VALUES = [-1, -2, 0, 1, 2, 3, 1.5, -0.5, True, 2.0, "2", None]
+NUM_FIELDS = ["Map.MaxConcurrency (Iterator, End)", "Map.MaxConcurrency (ItemProcessor, Next)", "Map.MaxConcurrency inside a Parallel branch",
+              "Wait.Seconds", "Task.TimeoutSeconds", "Task.HeartbeatSeconds", "top-level TimeoutSeconds"]
+NUM_DATA = {"x": 1, "items": [0], "items3": [1, 2, 3]}
+
+
+def build_numeric(fi, vi):
+    v = NUM_VALUES[vi]
+    it = {"StartAt": "P", "States": {"P": {"Type": "Pass", "End": True}}}
+    task = {"Type": "Task", "Resource": "arn:aws:rpcmessage:local::function:f", "End": True}
+    if fi == 0:
+        return {"StartAt": "M", "States": {"M": {"Type": "Map", "ItemsPath": "$.items3", "MaxConcurrency": v, "Iterator": it, "End": True}}}
+    if fi == 1:
+        return {"StartAt": "M", "States": {"M": {"Type": "Map", "ItemsPath": "$.items3", "MaxConcurrency": v, "ItemProcessor": it, "Next": "Z"}, "Z": {"Type": "Succeed"}}}
+    if fi == 2:
+        br = {"StartAt": "M", "States": {"M": {"Type": "Map", "ItemsPath": "$.items3", "MaxConcurrency": v, "ItemProcessor": it, "End": True}}}
+        other = {"StartAt": "Q", "States": {"Q": {"Type": "Pass", "End": True}}}
+        return {"StartAt": "A", "States": {"A": {"Type": "Parallel", "Branches": [br, other], "Next": "Z"}, "Z": {"Type": "Succeed"}}}
+    if fi == 3:
+        return {"StartAt": "W", "States": {"W": {"Type": "Wait", "Seconds": v, "End": True}}}
+    if fi == 4:
+        return {"StartAt": "T", "States": {"T": dict(task, TimeoutSeconds=v)}}
+    if fi == 5:
+        return {"StartAt": "T", "States": {"T": dict(task, HeartbeatSeconds=v)}}
+    return {"StartAt": "T", "TimeoutSeconds": v, "States": {"T": {"Type": "Pass", "End": True}}}
+
+
+def numeric_verdict(fi, vi):
+    asl = build_numeric(fi, vi)
+    r = lint(asl)
+    if r[0] != "ok":
+        return "raised:" + r[1]
+    if r[1]:
+        return "rejected"
+    o = drive(copy.deepcopy(asl), copy.deepcopy(NUM_DATA))
+    return o[0] + ":" + str(o[1])
+
+
+@condition(timeout={"quick": 180, "thorough": 300}, functions=_B_FUNCS + ["asl_state_Map_delegate (MaxConcurrency)", "StateMachine.j2119: numeric field constraints"],
+           outside=_B_OUT + ["numeric fields of Retriers (C07) and of Choice comparisons (C14)"],
+           note="a validator-accepted value of a numeric field must lead to a terminal status that is not a run-time failure for an ill-typed definition")
+def agree_numeric_fields(fi: int, vi: int) -> bool:
+    """
+    requires: 0 <= fi < len(NUM_FIELDS) and 0 <= vi < len(NUM_VALUES)
+    ensures: _
+    """
+    v = natively(numeric_verdict, stubs.cint(fi, 0, len(NUM_FIELDS) - 1), stubs.cint(vi, 0, len(NUM_VALUES) - 1))
+    return v == "rejected" or v.startswith("succeeded:") or (v.startswith("failed:") and not v.startswith("failed:States.Runtime"))
+
+
+@condition(timeout={"quick": 180, "thorough": 300}, functions=_C_FUNCS + ["asl_state_Map_delegate (MaxConcurrency)"],
+           note="the same definitions stored WITHOUT validation (the REST API validates only on request): an uninterpretable value at worst "
+                "fails the execution - it must not leave it RUNNING with nothing left to deliver, nor escape notify")
+def unvalidated_numeric_fields(fi: int, vi: int) -> bool:
+    """
+    requires: 0 <= fi < len(NUM_FIELDS) and 0 <= vi < len(NUM_VALUES)
+    ensures: _
+    """
+    def run(fi, vi):
+        return drive(copy.deepcopy(build_numeric(fi, vi)), copy.deepcopy(NUM_DATA))[0]
+    return natively(run, stubs.cint(fi, 0, len(NUM_FIELDS) - 1), stubs.cint(vi, 0, len(NUM_VALUES) - 1)) in ("succeeded", "failed")
+
+
 # a poison REPLY on the reply queue: "the engine keeps serving" (whole-run, simulated broker)
 import s2_found as found
 found.register(globals(), {"C18", "C02", "C03"}, ["odd_task_replies"])
